@@ -1,10 +1,10 @@
 package main
 
 import (
-	"github.com/bluenviron/gomavlib/v3"
 	"bytes"
 	"errors"
 	"fmt"
+	"github.com/bluenviron/gomavlib/v3"
 	"io"
 	"strconv"
 	"strings"
@@ -611,4 +611,3 @@ func normaliseSigned(b []byte, nominalNs string, key *frame.V2Key, before, after
 	copy(c[n-6:], refSignature(key[:], c[:n-6]))
 	return hx(c), ts
 }
-
